@@ -647,6 +647,15 @@ def known_scenarios(R, D):
               "memarr 3 1 0 12 4 4", "read 0 2 0 8", "setnum 0 cache.size 8", "read 0 2 4096 8", "drop 2", "drop 3", "free 0", "closefds 0"):
         S.add(l)
     out.append(S)
+    # the same with a small cache and more distinct pages than its capacity, so that the lent page (the look-up table at
+    # page 3) sits in the second half of the entry array when the cache is replaced
+    for cs, pre in ((1, (0,)), (2, (0, 1)), (2, (0, 1, 2)), (3, (0, 1, 2, 4))):
+        S = Scn("lent-upper", D)
+        for l in ["new 0", "open 0 0 1 %s" % D.path, "setnum 0 cache.size %d" % cs, "setnum 0 addrxlat.default.virt_bits 48"] + \
+                 ["read 0 1 %d 8" % (D.ps * pg) for pg in pre] + \
+                 ["ax 0 2 3", "memarr 3 1 %d 12 4 4" % (3 * D.ps), "read 0 2 0 8", "setnum 0 cache.size 8", "read 0 2 4096 8", "drop 2", "drop 3", "free 0", "closefds 0"]:
+            S.add(l)
+        out.append(S)
     return out
 
 
